@@ -25,6 +25,7 @@ type Mirror struct {
 	Dicts    []DictObs // dictionaries seen in the last batch
 	MaxDict  map[string]int
 	Payloads int
+	BadIndex string // first dictionary index beyond the transmitted dictionary
 	pool     memory.Allocator
 }
 
@@ -136,6 +137,9 @@ func (m *Mirror) Feed(signal string, bar *colarspb.BatchArrowRecords, mainRows i
 		for ci, col := range rec.Columns() {
 			m.collectDicts(pl.Type.String(), rec.Schema().Field(ci).Name, col)
 		}
+		if m.BadIndex != "" {
+			return fmt.Sprintf("payload %d (%v, schema id %q): %s", pi, pl.Type, pl.SchemaId, m.BadIndex)
+		}
 	}
 	return ""
 }
@@ -149,6 +153,16 @@ func (m *Mirror) collectDicts(payload, path string, col arrow.Array) {
 		}
 		n := a.Dictionary().Len()
 		m.Dicts = append(m.Dicts, DictObs{Payload: payload, Column: path, Len: n, IndexBits: bits})
+		// a valid stream never refers to a dictionary entry that was not
+		// transmitted (lost delta / replacement)
+		if m.BadIndex == "" {
+			for i := 0; i < a.Len(); i++ {
+				if a.IsValid(i) && a.GetValueIndex(i) >= n {
+					m.BadIndex = fmt.Sprintf("%s.%s row %d refers to dictionary entry %d, the dictionary transmitted so far has %d entries", payload, path, i, a.GetValueIndex(i), n)
+					break
+				}
+			}
+		}
 		key := payload + "." + path
 		if n > m.MaxDict[key] {
 			m.MaxDict[key] = n
